@@ -225,3 +225,125 @@ def named_schedulers(repo):
 
 
 fp("dask/base.py", "get_scheduler")
+
+
+fp("dask/optimization.py", "default_fused_keys_renamer")
+fp("dask/base.py", "get_collection_names")
+
+
+@table("FusedKeyRenamer")
+def fused_key_renamer(repo):
+    """`default_fused_keys_renamer` of dask/optimization.py: default length limit, room reserved for the digest suffix,
+    and the shape of `_enforce_max_key_limit` (the digest is taken from the FULL name, before the name is cut)."""
+    tree = parse(repo, "dask/optimization.py")
+    fn = find_def(tree, "default_fused_keys_renamer")
+    args = fn.args
+    names = [a.arg for a in args.args]
+    if names != ["keys", "max_fused_key_length"] or len(args.defaults) != 1 or not isinstance(args.defaults[0], ast.Constant):
+        raise ExtractError("default_fused_keys_renamer(keys, max_fused_key_length=<constant>) expected")
+    default = args.defaults[0].value
+    if not isinstance(default, int):
+        raise ExtractError(f"default max_fused_key_length is {default!r}")
+    # if max_fused_key_length: max_fused_key_length -= <reserve>
+    reserve = None
+    for node in fn.body:
+        if (isinstance(node, ast.If) and ast.unparse(node.test) == "max_fused_key_length" and len(node.body) == 1
+                and isinstance(node.body[0], ast.AugAssign) and isinstance(node.body[0].op, ast.Sub)
+                and ast.unparse(node.body[0].target) == "max_fused_key_length" and isinstance(node.body[0].value, ast.Constant)):
+            reserve = node.body[0].value.value
+    if not isinstance(reserve, int):
+        raise ExtractError("`if max_fused_key_length: max_fused_key_length -= <constant>` not found")
+    enf = find_def(fn, "_enforce_max_key_limit")
+    body = [n for n in enf.body if not (isinstance(n, ast.Expr) and isinstance(n.value, ast.Constant))]
+    if (len(body) != 2 or not isinstance(body[0], ast.If) or not isinstance(body[1], ast.Return)
+            or ast.unparse(body[1].value) != "key_name"
+            or ast.unparse(body[0].test) != "max_fused_key_length and len(key_name) > max_fused_key_length" or body[0].orelse):
+        raise ExtractError("_enforce_max_key_limit: `if limit and len(key_name) > limit: …; return key_name` expected")
+    stmts = body[0].body
+    if len(stmts) != 2 or not all(isinstance(st, ast.Assign) and len(st.targets) == 1 for st in stmts):
+        raise ExtractError("_enforce_max_key_limit: two assignments (digest, cut name) expected")
+    h, cut = stmts
+    if ast.unparse(h.targets[0]) != "name_hash" or ast.unparse(cut.targets[0]) != "key_name":
+        raise ExtractError("_enforce_max_key_limit: the digest must be taken before the name is cut")
+    # the digest is a function of the full name: `key_name` occurs in it, never sliced
+    uses = [n for n in ast.walk(h.value) if isinstance(n, ast.Name) and n.id == "key_name"]
+    sliced = [n for n in ast.walk(h.value) if isinstance(n, ast.Subscript) and any(
+        isinstance(m, ast.Name) and m.id == "key_name" for m in ast.walk(n.value))]
+    if not uses or sliced:
+        raise ExtractError("_enforce_max_key_limit: the digest is not computed from the full key name")
+    src = ast.unparse(h.value)
+    if src != "hashlib.md5(key_name.encode(errors='surrogatepass'), usedforsecurity=False).hexdigest()":
+        raise ExtractError(f"_enforce_max_key_limit: unexpected digest expression {src}")
+    import re
+    mcut = re.fullmatch(r"f'\{key_name\[:max\(max_fused_key_length - (\d+), 0\)\]\}-\{name_hash\}'", ast.unparse(cut.value))
+    if not mcut:
+        raise ExtractError(f"_enforce_max_key_limit: unexpected cut expression {ast.unparse(cut.value)}")
+    room = int(mcut.group(1))
+    whole = ast.unparse(fn)
+    for pat in ("it = reversed(keys)", "first_key = next(it)", "names = {utils.key_split(k) for k in it}",
+                "names.discard(first_name)", "names = sorted(names)", "names.append(first_key)", "names.append(first_key[0])",
+                "concatenated_name = '-'.join(names)", "return _enforce_max_key_limit(concatenated_name)",
+                "return (_enforce_max_key_limit(concatenated_name),) + first_key[1:]"):
+        if pat not in whole:
+            raise ExtractError(f"default_fused_keys_renamer no longer contains `{pat}`")
+    out = ["namespace Dask.Generated.FusedKeyRenamer",
+           "/-- default `max_fused_key_length` -/",
+           f"def defaultMaxLen : Nat := {default}",
+           "/-- `max_fused_key_length -= slack`: names up to `max - slack` characters are kept as they are -/",
+           f"def slack : Nat := {reserve}",
+           "/-- a name that is cut keeps `max - slack - room` characters -/",
+           f"def room : Nat := {room}",
+           "/-- length of the digest (hex digits of md5 over the FULL name) -/",
+           "def digestLen : Nat := 32",
+           "end Dask.Generated.FusedKeyRenamer", ""]
+    return "\n".join(out)
+
+
+fp("dask/tokenize.py", "register_pandas", "_normalize_pickle", "_normalize_dataclass", "normalize_partial", "normalize_ordered_dict",
+   "_normalize_pure_object", "normalize_bound_method", "normalize_builtin_function_or_method", "normalize_literal",
+   "normalize_compose")
+
+
+def _registrations(body, lazy):
+    """(class expression, function name, lazy module) for every `normalize_token.register(...)` in a statement list"""
+    out = []
+    for node in body:
+        if isinstance(node, ast.FunctionDef):
+            for d in node.decorator_list:
+                if (isinstance(d, ast.Call) and isinstance(d.func, ast.Attribute) and d.func.attr == "register"
+                        and ast.unparse(d.func.value) == "normalize_token"):
+                    if len(d.args) != 1 or d.keywords:
+                        raise ExtractError("normalize_token.register with unexpected arguments: " + ast.unparse(d))
+                    out.append((ast.unparse(d.args[0]), node.name, lazy))
+                elif (isinstance(d, ast.Call) and isinstance(d.func, ast.Attribute) and d.func.attr == "register_lazy"
+                      and ast.unparse(d.func.value) == "normalize_token"):
+                    if len(d.args) != 1 or not isinstance(d.args[0], ast.Constant):
+                        raise ExtractError("normalize_token.register_lazy with unexpected arguments")
+                    out += _registrations(node.body, d.args[0].value)
+        elif isinstance(node, ast.Expr) and isinstance(node.value, ast.Call):
+            c = node.value
+            if isinstance(c.func, ast.Attribute) and c.func.attr == "register" and ast.unparse(c.func.value) == "normalize_token":
+                if len(c.args) != 2:
+                    raise ExtractError("normalize_token.register(call form) with unexpected arguments")
+                out.append((ast.unparse(c.args[0]), ast.unparse(c.args[1]), lazy))
+    return out
+
+
+@table("TokenRegistry")
+def token_registry(repo):
+    """every class registered with `normalize_token` in dask/tokenize.py, in source order"""
+    tree = parse(repo, "dask/tokenize.py")
+    regs = _registrations(tree.body, "")
+    if not regs:
+        raise ExtractError("no registrations found")
+    # registrations hidden in other statements (loops, conditionals) would escape the list above
+    n_all = sum(1 for n in ast.walk(tree) if isinstance(n, ast.Attribute) and n.attr == "register"
+                and ast.unparse(n.value) == "normalize_token")
+    if n_all != len(regs):
+        raise ExtractError(f"{n_all} uses of normalize_token.register, {len(regs)} recognised")
+    out = ["namespace Dask.Generated.TokenRegistry",
+           "/-- `(class expression, normaliser, lazily registered for module)` -/",
+           "def registry : List (String × String × String) := ["
+           + ", ".join(f"({lean_str(a)}, {lean_str(b)}, {lean_str(c)})" for a, b, c in regs) + "]",
+           "end Dask.Generated.TokenRegistry", ""]
+    return "\n".join(out)
